@@ -1,6 +1,6 @@
 (** C06 - inserting a row or column places it exactly and keeps the rest.
     Only statements, each closed by [exact] and followed by [Print Assumptions]. *)
-From TD Require Import Base.Prelude Spec.Grid Spec.Inv Model.Owned Proofs.InsertRow.
+From TD Require Import Base.Prelude Spec.Grid Spec.Inv Model.Owned Proofs.InsertRow Proofs.InsertCol.
 
 (** accepted [insert_row]/[push_row]: for every shape, index [<= R], element type, capacity
     situation ([spare]) and build mode ([dbg]): the flat buffer is the original with the row
@@ -36,8 +36,49 @@ Theorem C06_insert_row_rejects :
 Proof. exact @insert_row_reject. Qed.
 Print Assumptions C06_insert_row_rejects.
 
+(** accepted [insert_col]/[push_col]: for every shape, index [<= C], capacity situation and
+    build mode the back-to-front block-copy loop ends with a buffer whose cell (c, r) of the
+    (C+1)-wide result is: the old (c, r) for c < idx, the r-th supplied element for c = idx,
+    the old (c-1, r) for c > idx; into the empty array the column becomes an Nx1 array, an
+    empty column leaves (0,0).  No slot outside the reserved buffer is touched and the Vec
+    never owns an uninitialised slot (the model returns Ok, not UB) *)
+Theorem C06_insert_col_places :
+  forall (A : Type) dbg cap spare (t : toodee A) idx xs,
+  Inv t -> idx <= num_cols t -> (num_cols t = 0 \/ length xs = num_rows t) ->
+  (N.of_nat (length (data t)) + N.of_nat (length xs) <= cap)%N ->
+  exists d',
+    insert_col dbg cap spare t (N.of_nat idx) (honest_script xs)
+    = Ok (mkOp (if 0 <? length xs then mkTD d' (length xs) (num_cols t + 1) else mkTD d' 0 0) true [] []) /\
+    length d' = (num_cols t + 1) * length xs /\
+    (forall r c, r < length xs -> c <= num_cols t ->
+       nth_error d' (r * (num_cols t + 1) + c) = fv (data t) xs (num_cols t) idx r c).
+Proof. exact @insert_col_accept. Qed.
+Print Assumptions C06_insert_col_places.
+
+(** ... which, read as rows of cells, is every original row with the new element inserted
+    at [idx] *)
+Theorem C06_insert_col_grid :
+  forall (A : Type) (data xs d' : list A) nc idx, idx <= nc -> length data = nc * length xs ->
+  length d' = (nc + 1) * length xs ->
+  (forall r c, r < length xs -> c <= nc -> nth_error d' (r * (nc + 1) + c) = fv data xs nc idx r c) ->
+  d' = concat (map2 (fun x row => insert_at idx x row) xs (chunks (length xs) nc data)).
+Proof. exact @insert_col_rows. Qed.
+Print Assumptions C06_insert_col_grid.
+
+Theorem C06_insert_col_rejects :
+  forall (A : Type) dbg cap spare (t : toodee A) (index : N) xs,
+  (N.of_nat (num_cols t) < index)%N \/ (num_cols t <> 0 /\ length xs <> num_rows t) ->
+  insert_col dbg cap spare t index (honest_script xs) = Ok (mkOp t false xs []).
+Proof. exact @insert_col_reject. Qed.
+Print Assumptions C06_insert_col_rejects.
+
 (** non-vacuity: a 2x2 array, a row inserted in the middle *)
 Example C06_example :
   insert_row true 1000 3 (mkTD [1; 2; 3; 4] 2 2) 1 (honest_script [8; 9])
   = Ok (mkOp (mkTD [1; 2; 8; 9; 3; 4] 3 2) true [] []).
+Proof. vm_compute. reflexivity. Qed.
+
+Example C06_example_col :
+  insert_col true 1000 0 (mkTD [1; 2; 3; 4] 2 2) 1 (honest_script [8; 9])
+  = Ok (mkOp (mkTD [1; 8; 2; 3; 9; 4] 2 3) true [] []).
 Proof. vm_compute. reflexivity. Qed.
